@@ -487,14 +487,14 @@ func canonJudge(prefix string) func(sc *Scenario, st *engine.Stats, res *engine.
 // addSchedLayer wraps a property's Plan/Exec with a schedule layer over scens.
 
 // addRacePass registers the scenarios of a property's schedule layer for the complementary free-running
-// -race pass (run after all jobs): each scenario in its own cold process, threads 2..16.
+// -race pass (run before the jobs): each scenario in its own cold process, threads 2..16.
 func addRacePass(p *Prop, scens func() []Scenario) {
 	layerByProp[p.ID] = scens
-	post := p.Post
+	pre := p.Pre
 	id := p.ID
-	p.Post = func(tier string, total *engine.JobResult) {
-		if post != nil {
-			post(tier, total)
+	p.Pre = func(tier string, total *engine.JobResult) {
+		if pre != nil {
+			pre(tier, total)
 		}
 		var names []string
 		for _, sc := range scens() {
